@@ -38,6 +38,9 @@ def extra(ctx, cfg, results, inprocess=True):
     thorough = ctx.tier == "thorough"
     n_inputs = 12000 if thorough else 1800
     n_inproc = 8000 if thorough else 900
+    n_accepted = 30000 if thorough else 5000
+    if os.environ.get("C16_SMALL"):          # debugging aid (trying a recogniser / a seeded change quickly): the fixed inputs and few others
+        n_inputs, n_inproc, n_accepted = 300, 50, 400
     r = clilib.rng(ctx, "inputs")
     tasks = example_tasks()
     strings = source_strings()
@@ -95,7 +98,7 @@ def extra(ctx, cfg, results, inprocess=True):
     # every generator, specifications, outlines, user guides), each through the commands that read that kind of text
     accepted = []
     if inprocess:
-        accepted = accepted_texts(ctx.seed, 30000 if thorough else 5000)
+        accepted = accepted_texts(ctx.seed, n_accepted)
     dist["accepted_text_inputs"] = {}
     only_of = {}
     for text, only, origin in accepted:
